@@ -40,6 +40,8 @@ def parsePayload : List String → Option Val
   | ["str", t] => (strTok t).map .str
   | ["unit"] => some .unit
   | ["marker"] => some (.unitStruct "Marker")
+  -- a cons list of n nested Arcs around the unit struct `End`: by C17_serialize_transparent every link is transparent
+  | ["chain", _n] => some (.unitStruct "End")
   | ["arr0"] => some (.tuple .nil)           -- `[u8; 0]`: serde's impl is `serialize_tuple(0)?.end()` / `deserialize_tuple(0, ..)`
   | ["pair", n, t] => do
       let n ← n.toNat?; let t ← strTok t
